@@ -366,7 +366,9 @@ func CreateDB(dbName string) error {
 		return ErrDBExists
 	}
 
-	fs, err := newFileStore(path, true)
+	// no page flusher while the database is being created: nothing here takes
+	// the statement lock, and the pages are flushed below and on Close
+	fs, err := newFileStore(path, false)
 	if err != nil {
 		return err
 	}
